@@ -7,4 +7,4 @@ META = dict(trusted_base=COMMON_TB + [
 
 
 def items(tier):
-    return contract_items("C05") + [dict(kind="enum", spec="lemmas.b_c05:spec_selftest"), dict(kind="bounded", spec="lemmas.b_c05:sweep")]
+    return contract_items("C05", tier) + [dict(kind="enum", spec="lemmas.b_c05:spec_selftest"), dict(kind="bounded", spec="lemmas.b_c05:sweep")]
